@@ -278,7 +278,7 @@ Qed.
 (* the descriptor written for a well-formed type system names every type *)
 Lemma named_written s : wf_tsb s = true -> named_descrb (descr_of_ts s) = true.
 Proof.
-  intros Hwf. destruct (rt_da s Hwf) as [da [Hda [Hin [Hname Hdef]]]].
+  intros Hwf0. pose proof (wf_ts_lax_of s Hwf0) as Hwf. destruct (rt_da s Hwf) as [da [Hda [Hin [Hname Hdef]]]].
   unfold named_descrb. rewrite (rt_prep s Hwf da Hda Hin Hname).
   rewrite forallb_forall. intros x Hx. apply negb_true_iff. apply String.eqb_neq. intros E.
   assert (In "" (map t_name (PE s da))) as Hn by (rewrite <- E; apply in_map; exact Hx).
